@@ -65,14 +65,50 @@ func persistRecord(i int) []byte {
 	return b
 }
 
+// persister records are long (about 130 bytes) and recur in operations, results and final stores:
+// they are printed by name (prec_<i>) and defined once per case file in the prelude.
+const maxPersistRecords = 64
+
+var (
+	persistNames map[string]int
+	persistUsed  = map[int]bool{}
+)
+
+func valTerm(v []byte) string {
+	if persistNames == nil {
+		persistNames = map[string]int{}
+		for i := 0; i < maxPersistRecords; i++ {
+			persistNames[string(persistRecord(i))] = i
+		}
+	}
+	if i, ok := persistNames[string(v)]; ok && len(v) > 24 {
+		persistUsed[i] = true
+		return fmt.Sprintf("prec_%d", i)
+	}
+	return hx.B(v)
+}
+
+func persistPrelude() string {
+	var is []int
+	for i := range persistUsed {
+		is = append(is, i)
+	}
+	sort.Ints(is)
+	var sb strings.Builder
+	for _, i := range is {
+		fmt.Fprintf(&sb, "Definition prec_%d : list N := Eval vm_compute in %s.\n", i, hx.B(persistRecord(i)))
+	}
+	return sb.String()
+}
+
 func (o dop) term() string {
 	switch o.kind {
 	case "save": // Save(key) = SetPrefix(STATE); Put(key, record)
-		return fmt.Sprintf("OSetPrefix %d%sOPut %s %s", db.DATATYPE_STATE, opSep, hx.B(o.k), hx.B(persistRecord(o.si)))
+		return fmt.Sprintf("OSetPrefix %d%sOPut %s %s", db.DATATYPE_STATE, opSep, hx.B(o.k), valTerm(persistRecord(o.si)))
 	case "load": // Load(key) = SetPrefix(STATE); Get(key), observed through what the persister then holds
 		return fmt.Sprintf("OSetPrefix %d%sOGet %s", db.DATATYPE_STATE, opSep, hx.B(o.k))
 	case "put":
-		return fmt.Sprintf("OPut %s %s", hx.B(o.k), hx.B(o.v))
+		return fmt.Sprintf("OPut %s %s", hx.B(o.k), valTerm(o.v))
 	case "get":
 		return "OGet " + hx.B(o.k)
 	case "pfx":
@@ -213,7 +249,7 @@ func (b *backend) safe(key []byte) bool {
 	return true
 }
 
-func kvTerm(k, v []byte) string { return "(" + hx.B(k) + ", " + hx.B(v) + ")" }
+func kvTerm(k, v []byte) string { return "(" + hx.B(k) + ", " + valTerm(v) + ")" }
 
 func (b *backend) apply(o dop) string {
 	ctx := context.Background()
@@ -245,7 +281,7 @@ func (b *backend) apply(o dop) string {
 				res = "DOk" + opSep + "DErr EGen"
 				return
 			}
-			res = "DOk" + opSep + "DVal " + hx.B(rec)
+			res = "DOk" + opSep + "DVal " + valTerm(rec)
 		case "put":
 			if err := b.d.Put(ctx, append([]byte{}, o.k...), append([]byte{}, o.v...)); err != nil {
 				res = errTerm(err)
@@ -255,7 +291,7 @@ func (b *backend) apply(o dop) string {
 			if err != nil {
 				res = errTerm(err)
 			} else {
-				res = "DVal " + hx.B(v)
+				res = "DVal " + valTerm(v)
 			}
 		case "pfx":
 			b.d.SetPrefix(o.p)
@@ -753,7 +789,7 @@ func persistCorpus() [][]dop {
 			{kind: "pfx", p: U}, {kind: "load", k: k}},
 		{{kind: "sess", s: "alice"}, {kind: "pfx", p: U}, {kind: "put", k: k, v: persistRecord(4)}, {kind: "load", k: k},
 			{kind: "save", k: k, si: 5}, {kind: "sess", s: "bob"}, {kind: "pfx", p: U}, {kind: "load", k: k},
-			{kind: "pfx", p: S}, {kind: "put", k: k, v: []byte("not a record")}, {kind: "load", k: k},
+			{kind: "pfx", p: S}, {kind: "put", k: k, v: persistRecord(6)}, {kind: "load", k: k},
 			{kind: "sess", s: "alice"}, {kind: "pfx", p: U}, {kind: "load", k: k}},
 	}
 }
@@ -792,9 +828,9 @@ func genPersist(r *rand.Rand, thorough bool) []dop {
 			ops = append(ops, dop{kind: "sess", s: sessPool[r.Intn(2)]})
 		case x < 92:
 			ops = append(ops, dop{kind: "get", k: k})
-		default:
+		default: // anything stored under STATE must be a record, or Load has nothing to re-serialize
 			small++
-			ops = append(ops, dop{kind: "put", k: k, v: []byte(fmt.Sprintf("u%d", small))})
+			ops = append(ops, dop{kind: "pfx", p: U}, dop{kind: "put", k: k, v: []byte(fmt.Sprintf("u%d", small))})
 		}
 	}
 	ops = append(ops, dop{kind: "load", k: keyPool[0]})
@@ -858,5 +894,6 @@ func runDb(o opts) error {
 			return err
 		}
 	}
+	w.Prelude = persistPrelude()
 	return w.Flush()
 }
